@@ -519,7 +519,7 @@ Section CLoop.
           let c := ctx_set_static cnt (VCell idx) c in
           let '(w, sepe) := match trips, sep with
                             | O, _ | _, [] => (w, None)
-                            | _, _ => let (w', ok) := wr_write w sep in (w', if ok then None else Some EWriter)
+                            | _, _ => let (w', ok) := wr_write w (region_text c sep) in (w', if ok then None else Some EWriter)
                             end in
           match sepe with
           | Some e => Out (set_cerr (Some e) c) w (Some e)
@@ -583,7 +583,7 @@ Section RLoop.
       else
         let '(w, sepe) := match trips, sep with
                           | O, _ | _, [] => (w, None)
-                          | _, _ => let (w', ok) := wr_write w sep in (w', if ok then None else Some EWriter)
+                          | _, _ => let (w', ok) := wr_write w (region_text c sep) in (w', if ok then None else Some EWriter)
                           end in
         match sepe with
         | Some e => Out (set_cerr (Some e) c) w (Some e)
@@ -746,8 +746,9 @@ Section Interp.
         end
       end
 
-    | NBreak d => Out (set_brkD d c) w (Some EBreak)
-    | NLBreak d => Out (set_brkD d c) w (Some ELBreak)
+    (* a depth already pending (from a lazybreak earlier in the iteration) stays in force *)
+    | NBreak d => Out (set_brkD (Z.max d (brkD c)) c) w (Some EBreak)
+    | NLBreak d => Out (set_brkD (Z.max d (brkD c)) c) w (Some ELBreak)
     | NContinue => Out c w (Some ECont)
 
     | NCtx var src ok ins srcStatic mods =>
@@ -769,7 +770,12 @@ Section Interp.
               else
                 match conv_bytes v2 with
                 | Some ((_ :: _) as b) => Out (ctx_set_bytes var b c3) w None
-                | _ => Out (ctx_set var v2 (bytes_eqb ins n_static || elem_static v2) c3) w None
+                | _ =>
+                  (* a counter-loop cell is dyntpl's own storage: the new variable keeps a copy *)
+                  match v2 with
+                  | VCell i => Out (ctx_set_counter var (nth i (bufLC c3) 0) c3) w None
+                  | _ => Out (ctx_set var v2 (bytes_eqb ins n_static || elem_static v2) c3) w None
+                  end
                 end
             end
           end
